@@ -42,6 +42,10 @@ type shape struct {
 	ecs    bool
 	ad     bool
 	ede    bool
+
+	// longScope: the upstream's answer is good for a narrower network than
+	// the one it was asked about (scope longer than the source prefix).
+	longScope bool
 }
 
 var shapes = map[string]shape{
@@ -69,6 +73,7 @@ var shapes = map[string]shape{
 	"z.test.":        {kind: "ok", ttls: []uint32{0}},
 	"e5.test.":       {kind: "ok", ttls: []uint32{5}, ecs: true},
 	"e300.test.":     {kind: "ok", ttls: []uint32{300}, ecs: true, ad: true},
+	"e300n.test.":    {kind: "ok", ttls: []uint32{300}, ecs: true, longScope: true},
 	"enx.test.":      {kind: "nx", soaTTL: 30, soaMin: 30, ecs: true},
 	"other300.test.": {kind: "ok", ttls: []uint32{300}},
 	// An answer with records in every section, each with a TTL of its own
@@ -285,6 +290,9 @@ func answer(req *dns.Msg) (resp *dns.Msg) {
 			scope := uint8(0)
 			if sh.ecs {
 				scope = uint8(subnet.Bits())
+				if sh.longScope && scope > 0 {
+					scope = min(scope+7, uint8(subnet.Addr().BitLen()))
+				}
 			}
 			ropt := resp.IsEdns0()
 			for _, o := range opt.Option {
